@@ -356,7 +356,7 @@ func (s *c19Suite) fresh(pos *c19Pos, r *Rng, flavor, L int) (reflect.Value, boo
 			}
 			return p, true
 		}
-		if flavor == 1 && !isElem(t) && r.Intn(2) == 0 {
+		if (flavor == 1 && !isElem(t) && r.Intn(2) == 0) || (flavor >= 5 && !isElem(t)) {
 			// the one of the tower: 1 in the first leaf
 			c19Fill(p.Elem(), r, 1)
 			leaf := p.Elem()
@@ -370,7 +370,26 @@ func (s *c19Suite) fresh(pos *c19Pos, r *Rng, flavor, L int) (reflect.Value, boo
 			if f == nil {
 				return reflect.Value{}, false
 			}
-			f.SetRaw(leaf.Addr(), f.ToMont(big.NewInt(1)))
+			// an element of the base field embedded in the tower: 1, -1, 2, -4 or random in the first leaf, zero elsewhere
+			// (routines that special-case base-field operands: square roots, inverses, norms)
+			var bv *big.Int
+			pick := r.Intn(5)
+			if flavor >= 5 {
+				pick = []int{1, 3, 2}[flavor-5]
+			}
+			switch pick {
+			case 0:
+				bv = big.NewInt(1)
+			case 1:
+				bv = new(big.Int).Sub(f.Q, big.NewInt(1))
+			case 2:
+				bv = big.NewInt(2)
+			case 3:
+				bv = new(big.Int).Sub(f.Q, big.NewInt(4))
+			default:
+				bv = r.Below(f.Q)
+			}
+			f.SetRaw(leaf.Addr(), f.ToMont(bv))
 			return p, true
 		}
 		if !c19Fill(p.Elem(), r, flavor) {
@@ -728,7 +747,11 @@ func (s *c19Suite) drive(t *TraceWriter, m *c19Method, cfg *c19Cfg, r *Rng, st *
 			} else if s.kind == "field" {
 				kk = 3 * K // single field elements are cheap: more draws
 			}
-			for d := 0; d < kk; d++ {
+			kk2 := kk
+			if !m.hasSlices() && s.kind != "field" {
+				kk2 = kk + 3 // three more draws with base-field operands embedded in the tower (-1, -4, 2): flavors 5..7
+			}
+			for d := 0; d < kk2; d++ {
 				// draw 0: random contents; draw 1: special / zero contents; draw 2: equal contents in
 				// distinct blocks of one class (equal values, different objects); then random again
 				flavor := 0
@@ -736,6 +759,9 @@ func (s *c19Suite) drive(t *TraceWriter, m *c19Method, cfg *c19Cfg, r *Rng, st *
 					flavor = 1 + r.Intn(2)
 				} else if d%4 == 3 {
 					flavor = 3 // domain elements where the suite has a narrower domain (cyclotomic subgroup), else random
+				}
+				if d >= kk {
+					flavor = 5 + (d - kk)
 				}
 				bl := m.blockLens(nb, L, r)
 				protos := make([]reflect.Value, nb)
